@@ -4,7 +4,12 @@ from pyvc.spec import Contract
 G = "verif_ghost.c15."
 CLEAN = "tid not in cfg._thread_in_context_manager and tid not in cfg._thread_config"
 ENVDEF = "cfg.parse_value(os.environ.get('SQLLINEAGE_' + K, cfg.config[K][1]), cfg.config[K][0])"
-COMMON = dict(props=["C15"], at_calls=False, lets={"tid": "cfg.get_ident()"}, params={"kw": "dict[str, Any]", "kw1": "dict[str, Any]", "kw2": "dict[str, Any]"})
+INTERFERE = ["cfg._thread_config", "cfg._thread_in_context_manager"]
+RELY = {
+    "own_cfg_slot": "(tid in cfg._thread_config) == prev(tid in cfg._thread_config) and cfg._thread_config.get(tid) == prev(cfg._thread_config.get(tid))",
+    "own_ctx_mark": "(tid in cfg._thread_in_context_manager) == prev(tid in cfg._thread_in_context_manager)",
+}
+COMMON = dict(props=["C15"], at_calls=False, interfere=INTERFERE, rely=RELY, lets={"tid": "cfg.get_ident()"}, params={"kw": "dict[str, Any]", "kw1": "dict[str, Any]", "kw2": "dict[str, Any]"})
 VALID = lambda d: f"forall(lambda k: implies(k in {d}, k in cfg.config), k='str')"
 ANY_RAISE_CLEAN = {"*": {"when": None, "ensures": {"scope_left_clean": CLEAN}, "no_frame": True}}
 MOD = ["cfg._thread_config", "cfg._thread_in_context_manager"]
@@ -46,7 +51,7 @@ CONTRACTS = [
         requires={"key": "K in cfg.config", "unknown_key": "exists(lambda k: k in kw and k not in cfg.config, k='str')"},
         ensures={
             "rejected_override_is_noop": "result[0] == result[1]",
-            "ctx_same": "cfg._thread_in_context_manager == old(cfg._thread_in_context_manager)",
+            "ctx_same": "(tid in cfg._thread_in_context_manager) == old(tid in cfg._thread_in_context_manager)",
         },
         raises={"*": {"when": None, "no_frame": True}},
         modifies=MOD,
